@@ -1,6 +1,6 @@
 #!/bin/bash
 # usage: import_round2.sh <Cxx> [mN]  — takes a sub-agent's delivery from its scratch worktree, removes the worktree, confirms the change at /repo HEAD
-id=$1; m=${2:-m3}; wt=/tmp/wt2_$id
+id=$1; m=${2:-m3}; wt=/tmp/${3:-wt2}_$id
 if [ ! -f $wt/_out/$m/patch.diff ]; then echo "$id: no delivery in $wt/_out/$m"; exit 1; fi
 for dst in /verif/seeded_incoming/$id/$m /verif/seeded/$id/$m; do mkdir -p $dst; cp $wt/_out/$m/patch.diff $wt/_out/$m/demo_test.py $wt/_out/$m/notes.md $dst/ 2>/dev/null; done
 dirty=$(git -C $wt status --short | grep -v '^??' | wc -l)
